@@ -215,6 +215,32 @@ def judge(item, L, lp_text):
         res['fails'].append({'ob': 'lp-unreadable', 'why': str(e), 'point': None})
         return res
     names = lin.names(L)
+    # a model name that is not a name of the LP format (x_-1: '-' is an operator there) has to be written as some
+    # other, valid name; which one is the exporter's choice. It is identified without knowing the exporter's rule:
+    # the LP variable that no model variable is called, with the same letters and digits in the same order.
+    rename = {}
+    unk = [v for v in P['vars'] if v not in names]
+    for n in names:
+        if re.fullmatch(NAME, n) or n in P['vars']:
+            continue
+        skel = re.sub(r'[^A-Za-z0-9]', '', n)
+        cands = [v for v in unk if v not in rename and re.sub(r'[^A-Za-z0-9]', '', v) == skel]
+        if len(cands) > 1:
+            # several compiled names share a skeleton (x_-1 and x_1_ ...): prefer same length, then first
+            cands.sort(key=lambda v: (abs(len(v) - len(n)), v))
+        if cands:
+            rename[cands[0]] = n
+    if rename:
+        res['renamed'] = len(rename)
+        rn_ = lambda v: rename.get(v, v)
+        P['vars'] = [rn_(v) for v in P['vars']]
+        P['obj'] = {rn_(v): c for v, c in P['obj'].items()}
+        for r in P['rows']:
+            r['coefs'] = {rn_(v): c for v, c in r['coefs'].items()}
+        for k in ('lo', 'hi'):
+            P[k] = {rn_(v): c for v, c in P[k].items()}
+        for k in ('binary', 'general'):
+            P[k] = [rn_(v) for v in P[k]]
     extra = [v for v in P['vars'] if v not in names]
     if extra:
         res['fails'].append({'ob': 'lp-unknown-variable', 'vars': extra, 'point': None})
@@ -336,6 +362,9 @@ def family(t, sd):
     items = [{'lm': s} for s in specs]
     # linear models produced by the real linearizer
     ms = gen.m1_family(0)[:: (9 if t == 'quick' else 2)] + gen.seeded_models(61 + sd, 1500 if t == 'quick' else 20000, maxd=3, names=True)
+    # names a compilation produces from indexed variables (x_{i-1} at i = 0 is x_-1): '-' is an operator in the LP format
+    styles = gen.NAME_STYLES + [{'x': 'x_-1', 'y': 'y_0_-2', 'z': 'z_-1_-1', 'p': 'p_-1_3', 'q': 'q_2_-1_-5'}]
+    ms = [dict(m, model=gen.rename_vars(m['model'], styles[i % 4])) if i % 4 else m for i, m in enumerate(ms)]
     items += [{'model': m['model']} for m in ms]
     lim = os.environ.get('VERIF_LIMIT')
     if lim:
